@@ -651,3 +651,345 @@ def compare_cm(case, impl, ans, dis):
                             'case': case, 'impl': a, 'model': fr(b)})
                 return False
     return True
+
+
+# ------------------------------------------------ small functions: direct ties
+def tie_good_mg(ctx, dis):
+    from emg3d import meshes
+    rng = ctx.rng
+    combos = [(1024, 5, 3), (50000, 5, 0), (5000, 5, 3), (100, 2, 1), (64, 19, 0), (10, 20, 3),
+              (0, 5, 3), (1024, 1, 3), (1024, 5, 30), (1024, 5, 29), (2**31 - 1, 3, 27), (1024, 5, -1)]
+    n = 60 if ctx.thorough else 24
+    while len(combos) < n:
+        combos.append((rng.choice([7, 16, 100, 1000, 5000, 100000, 2**33]), rng.randint(0, 21),
+                       rng.randint(-1, 31)))
+    lines = [COQ_HEADER]
+    for (m, p, d) in combos:
+        lines.append(f"Eval vm_compute in out_opt_zlist (good_mg_cell_nr {V.coq_z(m)} {V.coq_z(p)} {V.coq_z(d)}).")
+    rc, out = V.coq_eval('c16_good', '\n'.join(lines) + '\n')
+    if rc != 0:
+        dis.append({'what': 'good_mg_cell_nr model does not evaluate', 'log': out[-1500:]})
+        return 0, {}
+    hist = {'ok': 0, 'ValueError': 0}
+    for (m, p, d), a in zip(combos, V.eval_answers(out)):
+        code, lst = parse_ans(a)
+        try:
+            impl = [int(x) for x in meshes.good_mg_cell_nr(m, p, d)]
+            ik = 0
+        except ValueError:
+            impl, ik = [], -1
+        hist['ok' if ik == 0 else 'ValueError'] += 1
+        if ik != code or impl != list(lst):
+            dis.append({'what': 'good_mg_cell_nr differs', 'case': {'max_nr': m, 'max_lowest': p, 'min_div': d},
+                        'impl': impl if ik == 0 else 'ValueError', 'model': list(lst) if code == 0 else 'ValueError'})
+    return len(combos), hist
+
+
+def tie_stretch(ctx, dis):
+    """meshes._stretch and meshes.cell_width against the model, dyadic inputs."""
+    from emg3d import meshes
+    rng = ctx.rng
+    n = 120 if ctx.thorough else 40
+    cases, lines = [], [COQ_HEADER]
+    for _ in range(n):
+        nw = rng.choice([1, 1, 2, 3, 5])
+        widths = [K.dy_pos(rng) for _ in range(nw)]
+        e0 = K.dy(rng)
+        edges = [e0, e0 + sum(widths)]
+        alpha = rng.choice([1.0, 1.0, 1.125, 1.25, 1.5, 2.0, 1.0625, 0.875])
+        nx = rng.choice([0, 1, 2, 3, 4, 6, 8, 8, 12, 16])
+        dom = [e0 - rng.choice([-1, 0, 1, 2, 4, 9]) * widths[0] - rng.choice([0, 0.25]),
+               edges[1] + rng.choice([-1, 0, 1, 2, 4, 9]) * widths[-1] + rng.choice([0, 0.5])]
+        use_up = rng.random() < 0.5
+        cases.append(dict(edges=edges, widths=widths, alpha=alpha, nx=nx, domain=dom, use_up=use_up))
+        lines.append(f"Eval vm_compute in out_stretch (stretch qleb ({q(edges[0])}, {q(edges[1])}) "
+                     f"{qlist(widths)} {q(alpha)} {V.coq_z(nx)} ({q(dom[0])}, {q(dom[1])}) {V.coq_bool(use_up)}).")
+    cw = []
+    for _ in range(20):
+        sd, pps = K.dy_pos(rng) * 16, rng.choice([1.0, 2.0, 3.0, 4.0, 2.5])
+        lim = rng.choice([None, K.dy_pos(rng), [K.dy_pos(rng)], sorted([K.dy_pos(rng), K.dy_pos(rng) * 4])])
+        cw.append((sd, pps, lim))
+        lines.append(f"Eval vm_compute in out_q (cell_width qleb {q(sd)} {q(pps)} {limits_term(lim)}).")
+    rc, out = V.coq_eval('c16_stretch', '\n'.join(lines) + '\n')
+    if rc != 0:
+        dis.append({'what': '_stretch model does not evaluate', 'log': out[-1500:]})
+        return 0, {}
+    ans = V.eval_answers(out)
+    hist = {'grid': 0, 'False': 0}
+    for c, a in zip(cases, ans[:n]):
+        rem, pairs = parse_ans(a)
+        w = np.array(c['widths']) if len(c['widths']) > 1 else np.float64(c['widths'][0])
+        e, hx, r = meshes._stretch(np.array(c['edges']), w, c['alpha'], c['nx'], c['domain'], c['use_up'])
+        if r is False:
+            hist['False'] += 1
+            if rem != -1:
+                dis.append({'what': '_stretch: impl returns False, model a grid', 'case': c})
+            continue
+        hist['grid'] += 1
+        vals = [fr(p) for p in pairs]
+        impl = [float(e[0]), float(e[1])] + [float(x) for x in np.atleast_1d(hx)]
+        if rem != int(r) or len(vals) != len(impl) or any(
+                not close(x, y, max(abs(impl[0]), abs(impl[1]))) for x, y in zip(impl, vals)):
+            dis.append({'what': '_stretch differs', 'case': c, 'impl': {'remain': int(r), 'vals': impl},
+                        'model': {'remain': rem, 'vals': [float(v) for v in vals]}})
+    for (sd, pps, lim), a in zip(cw, ans[n:]):
+        m = fr(parse_ans(a))
+        i = float(np.atleast_1d(meshes.cell_width(np.float64(sd), pps, lim))[0])
+        if not close(i, m, 0.0):
+            dis.append({'what': 'cell_width differs', 'case': {'sd': sd, 'pps': pps, 'limits': lim},
+                        'impl': i, 'model': float(m)})
+    return n + len(cw), hist
+
+
+# ------------------------------------------------------------ correspondence
+COST_CAP = 4000
+
+
+def batched(prefix, terms, per):
+    return [(f"{prefix}_{k // per}", COQ_HEADER + '\n'.join(terms[k:k + per]) + '\n')
+            for k in range(0, len(terms), per)]
+
+
+def correspondence(ctx):
+    rng = ctx.rng
+    dis = []
+    hist = {}
+    n_good, hist['good_mg_cell_nr'] = tie_good_mg(ctx, dis)
+    n_str, hist['_stretch'] = tie_stretch(ctx, dis)
+
+    # origin_and_widths
+    n_oaw = 160 if ctx.thorough else 48
+    cap = 12000 if ctx.thorough else COST_CAP
+    cases, impls, skipped = [], [], 0
+    while len(cases) < n_oaw:
+        c = gen_oaw(rng)
+        im = run_oaw(c)
+        if im['cost'] > cap:
+            skipped += 1
+            continue
+        cases.append(c)
+        impls.append(im)
+    order = sorted(range(n_oaw), key=lambda k: -impls[k]['cost'])       # spread the costly ones
+    per = 6
+    nfiles = (n_oaw + per - 1) // per
+    groups = [[] for _ in range(nfiles)]
+    for pos, k in enumerate(order):
+        groups[pos % nfiles].append(k)
+    texts = [(f"c16_oaw_{g}", COQ_HEADER + '\n'.join(oaw_eval_term(cases[k], impls[k]) for k in grp) + '\n')
+             for g, grp in enumerate(groups)]
+    # construct_mesh
+    n_cm = 48 if ctx.thorough else 16
+    cmc, cmi = [], []
+    while len(cmc) < n_cm:
+        c = gen_cm(rng)
+        im = run_cm(c)
+        if im['cost'] > cap:
+            skipped += 1
+            continue
+        cmc.append(c)
+        cmi.append(im)
+    per_cm = 4
+    texts += [(f"c16_cm_{k // per_cm}", COQ_HEADER + '\n'.join(
+        cm_eval_term(c, im) for c, im in zip(cmc[k:k + per_cm], cmi[k:k + per_cm])) + '\n')
+        for k in range(0, n_cm, per_cm)]
+    res = V.coq_eval_many(texts, timeout=1500)
+
+    feats, distinct = {}, set()
+    for g, grp in enumerate(groups):
+        rc, out = res[f"c16_oaw_{g}"]
+        if rc != 0:
+            dis.append({'what': 'origin_and_widths model does not evaluate', 'log': out[-1500:]})
+            continue
+        for k, a in zip(grp, V.eval_answers(out)):
+            compare_oaw(cases[k], impls[k], parse_ans(a), dis)
+            fs = oaw_features(cases[k], impls[k])
+            for f in fs:
+                feats[f] = feats.get(f, 0) + 1
+            if impls[k]['kind'] == 0 and len(impls[k]['hx']) > 3:
+                distinct.add(tuple(sorted(set(fs))) + (len(impls[k]['hx']),))
+    cmh = {}
+    for k in range(0, n_cm, per_cm):
+        rc, out = res[f"c16_cm_{k // per_cm}"]
+        if rc != 0:
+            dis.append({'what': 'construct_mesh model does not evaluate', 'log': out[-1500:]})
+            continue
+        for c, im, a in zip(cmc[k:k + per_cm], cmi[k:k + per_cm], V.eval_answers(out)):
+            compare_cm(c, im, parse_ans(a), dis)
+            key = 'kind%d/props%d' % (im['kind'], 0 if c['scalar_props'] else len(c['properties']))
+            cmh[key] = cmh.get(key, 0) + 1
+            for nm in ('domain', 'vector', 'distance', 'stretching', 'limits', 'pps', 'coe'):
+                kk = f"{nm}:{c[nm][0]}"
+                cmh[kk] = cmh.get(kk, 0) + 1
+            if im['kind'] == 0:
+                distinct.add(('cm', key, tuple(len(h) for h in im['h']),
+                              tuple(c[nm][0] for nm in ('domain', 'vector', 'distance', 'stretching',
+                                                         'limits', 'pps', 'coe'))))
+    hist['origin_and_widths'] = feats
+    hist['construct_mesh'] = cmh
+    hist['skipped_too_costly_for_Q'] = skipped
+    total = n_good + n_str + n_oaw + n_cm
+    return {
+        'evaluations': total,
+        'distinct_nontrivial': len(distinct),
+        'rule': "origin_and_widths: random dyadic parameter sets (styles A-D of stretching ranges; domain / "
+                "distance / vector-only; vectors reaching beyond the domain; sea surface; Laplace; six maps; "
+                "1-3 properties; limits none/scalar/pair; lambda_from_center; unsorted / duplicate cell "
+                "lists; raise_error), sets whose search would take too long on exact rationals are skipped "
+                "(count reported); construct_mesh: every argument in scalar / pair / ndarray / 3-tuple / "
+                "dict form with None entries, properties of length 1,2,3,4,5,7 and scalar; _stretch, "
+                "cell_width, good_mg_cell_nr called directly. distinct non-trivial = distinct (feature "
+                "set, cell count) of calls that returned a grid with more than 3 cells",
+        'samples': [cases[0], cases[1], {k: (v if not isinstance(v, tuple) else str(v))
+                                         for k, v in cmc[0].items()}],
+        'traces_validated_against_impl': total,
+        'histogram': hist,
+        'disagreements': dis,
+    }
+
+
+# ------------------------------------------------------------------ searcher
+def post_oaw(case, out, warns):
+    """The postconditions of the property text on one origin_and_widths result.
+    Returns a list of violated clauses (strings)."""
+    x0, hx = float(out[0]), np.atleast_1d(np.asarray(out[1], dtype=float))
+    bad = []
+    c = case['center']
+    sds = skin_depths(case)
+    sd = [sds[0], sds[min(len(sds) - 1, 1)], sds[min(len(sds) - 1, 2)]]
+    s0, s1 = case['stretching']
+    if len(hx) not in set(int(x) for x in case['cell_numbers']):
+        bad.append(f"number of cells {len(hx)} not in cell_numbers")
+    if not np.all(hx > 0):
+        bad.append("non-positive width")
+        return bad
+    nodes = x0 + np.r_[0.0, np.cumsum(hx)]
+    vec = None if case['vector'] is None else np.asarray(case['vector'], float)
+    if case['domain'] is not None:
+        lo, hi = case['domain']
+    elif case['distance'] is not None:
+        lo, hi = c - abs(case['distance'][0]), c + abs(case['distance'][1])
+    else:
+        lo, hi = vec.min(), vec.max()
+    vlo, vhi = lo, hi                                  # the vector is cut to this
+    if case['seasurface'] is not None:
+        hi = max(hi, case['seasurface'])
+    lam = [case['lambda_factor'] * TWOPI * sd[1], case['lambda_factor'] * TWOPI * sd[2]]
+    mb = case['max_buffer']
+    if case['lambda_from_center']:
+        need_lo = min(lo, max(lo - max(0.0, (2 * lam[0] - abs(lo - c)) / 2), c - mb))
+        need_hi = max(hi, min(hi + max(0.0, (2 * lam[1] - abs(hi - c)) / 2), c + mb))
+    else:
+        need_lo, need_hi = lo - min(lam[0], mb), hi + min(lam[1], mb)
+    scale = max(abs(need_lo), abs(need_hi), nodes[-1] - nodes[0], 1.0)
+    tol = 1e-9 * scale
+    if nodes[0] > need_lo + tol or nodes[-1] < need_hi - tol:
+        bad.append(f"mesh [{nodes[0]!r}, {nodes[-1]!r}] does not cover domain+buffer "
+                   f"[{need_lo!r}, {need_hi!r}]")
+    # growth outside the user vector
+    bound = max(1.0, s0, s1) * (1 + 1e-9)
+    elo, ehi = (vec.min(), vec.max()) if vec is not None else (np.inf, -np.inf)
+    for k in range(len(hx) - 1):
+        inside = vec is not None and nodes[k + 2] > elo - tol and nodes[k] < ehi + tol
+        if inside:
+            continue
+        r = max(hx[k + 1] / hx[k], hx[k] / hx[k + 1])
+        if r > bound:
+            bad.append(f"widths {k},{k+1} grow by {r!r} > max stretching {max(1.0, s0, s1)!r}")
+            break
+    # centre
+    if vec is None and case['seasurface'] is None:
+        if case['center_on_edge'] in (None, True):
+            if np.min(np.abs(nodes - c)) > tol:
+                bad.append("centre is not a node although center_on_edge")
+        else:
+            mid = (nodes[:-1] + nodes[1:]) / 2
+            if np.min(np.abs(mid - c)) > tol:
+                bad.append("centre is not a cell centre although center_on_edge=False")
+    # vector nodes inside the domain
+    if vec is not None:
+        ins = vec[(vec >= vlo) & (vec <= vhi)]
+        if len(ins) >= 3 and np.all(np.diff(vec) > 0):
+            miss = [float(v) for v in ins if np.min(np.abs(nodes - v)) > tol]
+            if miss:
+                bad.append(f"vector nodes {miss[:3]} inside the domain are not mesh nodes")
+    if case['seasurface'] is not None and 2 not in warns:
+        if np.min(np.abs(nodes - case['seasurface'])) > 1e-7 + tol:
+            bad.append("sea surface is not a node and no warning was raised")
+    return bad
+
+
+def check_oaw_case(case):
+    from emg3d import meshes
+    vec = None if case['vector'] is None else np.array(case['vector'], dtype=float)
+    dom = None if case['domain'] is None else list(case['domain'])
+    with warnings.catch_warnings(record=True) as ws:
+        warnings.simplefilter('always')
+        try:
+            out = meshes.origin_and_widths(case['frequency'], list(case['properties']), case['center'],
+                                           dom, vec, case['seasurface'], **oaw_kwargs(case))
+        except (ValueError, RuntimeError):
+            return []                                    # failed loudly
+    if out[0] is None:
+        return [] if not case['raise_error'] else ["returned None's although raise_error=True"]
+    return post_oaw(case, out, warn_codes(ws))
+
+
+def perturb(rng, case):
+    """Leave the dyadic lattice: generic floats for the searcher."""
+    c = dict(case)
+    f = lambda x: float(x) * (1 + rng.uniform(-0.2, 0.2))
+    c['frequency'] = f(c['frequency'])
+    c['properties'] = [f(p) if c['mapping'] in ('Resistivity', 'Conductivity') else p + rng.uniform(-.3, .3)
+                       for p in c['properties']]
+    if c['domain'] is not None:
+        c['domain'] = [c['domain'][0] - rng.uniform(0, 50), c['domain'][1] + rng.uniform(0, 50)]
+    if c['seasurface'] is not None:
+        c['seasurface'] = c['seasurface'] + rng.uniform(0, 30)
+    c['stretching'] = [c['stretching'][0] + rng.choice([0, 0, rng.uniform(0, 0.1)]),
+                       max(c['stretching']) + rng.uniform(0, 0.4)]
+    c['lambda_factor'] = rng.choice([1.0, f(c['lambda_factor']), 0.5])
+    if rng.random() < 0.5:
+        c['cell_numbers'] = [16, 24, 32, 40, 48, 64, 80, 96, 128]
+    return c
+
+
+def search(ctx, broken):
+    rng = ctx.rng
+    hits = []
+    # the property itself on the cases the correspondence disagreed on
+    for b in broken or []:
+        d = b.get('detail')
+        if isinstance(d, dict) and isinstance(d.get('case'), dict) and 'cell_numbers' in d['case'] \
+                and 'style' in d['case']:
+            bad = check_oaw_case(d['case'])
+            if bad:
+                hits.append({'signature': 'origin_and_widths: ' + bad[0].split(' [')[0][:60],
+                             'fn': 'origin_and_widths', 'case': d['case'], 'violated': bad})
+                return hits
+    n = 600 if ctx.thorough else 250
+    tried = returned = 0
+    for k in range(n):
+        case = gen_oaw(rng)
+        if k % 2:
+            case = perturb(rng, case)
+        tried += 1
+        try:
+            bad = check_oaw_case(case)
+        except Exception as e:                 # malformed stream is not the property's business
+            ctx.notes.append(f"searcher: exception {e!r} on a generated case")
+            continue
+        returned += 1
+        if bad:
+            hits.append({'signature': 'origin_and_widths: ' + bad[0].split(' [')[0][:60],
+                         'fn': 'origin_and_widths', 'case': case, 'violated': bad})
+            break
+    ctx.notes.append(f"searcher: postconditions evaluated on {tried} origin_and_widths parameter sets "
+                     f"(half of them non-dyadic)")
+    return hits
+
+
+def replay(ctx, payload):
+    fi = payload.get('failing_input')
+    if not fi or 'case' not in fi:
+        return False
+    return not check_oaw_case(fi['case'])
